@@ -82,6 +82,9 @@ impl C09 {
     }
 }
 
+/// cases at multiples of this index are materialised in every shard (representatives of the pair block)
+const PAIR_STEP: u64 = 9973;
+
 /// case list that keeps only the cases of this worker's shard (others become `Skip`)
 struct Sink {
     v: Vec<Option<Box<Case>>>,
@@ -91,7 +94,8 @@ impl Sink {
     fn mine(&self) -> bool {
         match self.shard {
             None => true,
-            Some((w, nw)) => self.v.len() as u64 % nw == w,
+            // every PAIR_STEP-th case is kept in every shard: the pair block draws its representatives from them
+            Some((w, nw)) => self.v.len() as u64 % nw == w || (nw != u64::MAX && self.v.len() as u64 % PAIR_STEP == 0),
         }
     }
     fn push(&mut self, c: Case) {
@@ -260,6 +264,16 @@ impl Prop for C09 {
     }
     fn set_shard(&mut self, w: u64, nw: u64) {
         self.shard = Some((w, nw));
+    }
+    fn pair_reps(&self, _tier: Tier) -> Vec<u64> {
+        let m = self.cases.len() as u64 / PAIR_STEP;
+        if m < 2 {
+            return vec![];
+        }
+        let k = 12u64.min(m);
+        let mut v: Vec<u64> = (0..k).map(|i| ((2 * i + 1) * m / (2 * k)) * PAIR_STEP).collect();
+        v.dedup();
+        v
     }
     fn set_parent_mode(&mut self) {
         // no residue class ever matches: the parent keeps one empty slot per case
